@@ -29,8 +29,11 @@ theorem infra_no_package_state : Skeleton.current.stateGlobals = [] := by decide
 
 /-- The pending-call table: `Receive` fails only when the table is closed; the receive function listens to the
     value channel, the caller's context and the closed signal, and yields `ErrClosed` — nothing else — for the latter;
-    `Publish` waits outside the lock. -/
+    `Publish` waits outside the lock, and the response loop publishes and forgets: nothing — in particular no
+    `setErr` — hangs on whether somebody took the value, so a response nobody waits for (its call was cancelled, has
+    ended, never existed) is dropped whatever it carries. -/
 theorem infra_pending_call_table :
+    Skeleton.current.respPublishFireAndForget = true ∧
     Skeleton.current.bcReceiveErrorsOnlyClosed = true ∧ Skeleton.current.bcRecvSelectsDone = true ∧
     Skeleton.current.bcRecvSelectsCallerCtx = true ∧ Skeleton.current.bcRecvSelectsChan = true ∧
     Skeleton.current.bcPublishSelectOutsideLock = true ∧ Skeleton.current.bcPublishLooksUpUnderLock = true := by decide
